@@ -3,6 +3,7 @@
 package cl
 
 import (
+	"fmt"
 	"github.com/ohler55/slip"
 )
 
@@ -55,6 +56,9 @@ func (f *MakeSequence) Call(s *slip.Scope, args slip.List, depth int) (result sl
 		element = v
 	}
 	size := getFixnumArg(s, args[1], "size", depth)
+	if size < 0 || slip.ArrayMaxDimension < size {
+		slip.TypePanic(s, depth, "size", args[1], fmt.Sprintf("non-negative fixnum less than %d", slip.ArrayMaxDimension))
+	}
 	switch rt := args[0].(type) {
 	case slip.Symbol:
 		switch rt {
